@@ -44,6 +44,10 @@ VARIANTS = [
     ("phylip", {"data_type": "standard", "strict": True, "interleaved": True}, "standard"),
     ("fasta", {"data_type": "dna"}, "dna"),
     ("fasta", {"data_type": "protein"}, "protein"),
+    ("phylip", {"data_type": "continuous", "strict": False, "interleaved": False}, "continuous"),
+    ("phylip", {"data_type": "continuous", "strict": False, "interleaved": True}, "continuous"),
+    ("phylip", {"data_type": "protein", "strict": False, "interleaved": False}, "protein"),
+    ("nexus", {}, "continuous"), ("fasta", {"data_type": "standard"}, "standard"),
 ]
 
 
